@@ -1,5 +1,6 @@
 import OjgVerif.Props.C16
 import OjgVerif.Gen.Reflect
+import OjgVerif.Reflect.UnwrapWalk
 /-! # C06rec — Unmarshal and Recompose into user types: no fault escapes (sub-check of C06)
 
 What is DECIDED BY THE RUN (`harness/cmd/reflect/run06.go`): that the Go entry points — `oj.Unmarshal`,
@@ -30,9 +31,12 @@ of faults:
 * `selfcontaining_container_guarded_in_source`: since /repo 041b92d the unwrap loop of the field walk of
   `registerComposer` stops at a NAMED container type met a second time (finding
   `C06-recompose-selfcontaining-container`, fixed: `type Tree map[string]Tree` as a field type made
-  registration spin for ever). Such types are not values of the model's `GoType` (a finite tree): that
-  the walk ends is decided by the RUN (a stream of such types under the watchdog), the theorem only
-  pins the source fact.
+  registration spin for ever). Such types are not values of the model's `GoType` (a finite tree);
+  `Reflect/UnwrapWalk.lean` models the loop over a type GRAPH (a table of named types):
+  `unwrap_walk_terminates` — with the seen-list the loop ends on every table and start type, within an
+  explicit bound (lexicographic measure: named types not yet seen, size of the unnamed term);
+  `unwrap_walk_unguarded_spins` — without it it never ends on `type Tree map[string]Tree`. That the Go
+  loop is that walk is tied by the source fact and the run (a stream of such types under the watchdog).
 
 The model is total by construction (Lean functions, fuel-bounded): every model run ends in a value, a
 `panic` (a Go panic, recovered by `Recompose` into its error) or `outside`; it does not tell an error
@@ -96,5 +100,15 @@ loop followed `Elem()` of `type Tree map[string]Tree` for ever). -/
 theorem selfcontaining_container_guarded_in_source :
     Gen.Reflect.altRegisterWalkSeenGuard = true ∧ Gen.Reflect.altRegisterWalkUnwrapsAll = true := by
   decide +kernel
+
+/-- the unwrap loop with the seen-list (the code since 041b92d) terminates on EVERY table of named types
+and every start type, self-containing container types included -/
+theorem unwrap_walk_terminates (tbl : Walk.Table) (ft : Walk.WT) :
+    (Walk.walk true tbl ((tbl.length + 1) * (Walk.maxBody tbl + 2) + Walk.size ft + 1) ft []).isSome = true :=
+  Walk.walk_terminates tbl ft
+
+/-- the loop without it (the code before 041b92d) runs out of ANY fuel on `type Tree map[string]Tree` -/
+theorem unwrap_walk_unguarded_spins (f : Nat) : Walk.walk false Walk.treeTbl f (.named 0) [] = none :=
+  Walk.walk_unguarded_spins f []
 
 end OjgVerif.C06rec
